@@ -14,18 +14,18 @@ namespace Ptx
 
 /-- substitute parameter `new` for parameter `old` (lang/lex.py `substitute`; a quantifier's own
     variable is not touched, its body is) -/
-def Param.subst (new old : Param) (p : Param) : Param := if p = old then new else p
+def Param.psubst (new old : Param) (p : Param) : Param := if p = old then new else p
 
-def Sent.subst (new old : Param) : Sent → Sent
+def Sent.psubst (new old : Param) : Sent → Sent
   | .atom i s => .atom i s
-  | .pred p ps => .pred p (ps.map (Param.subst new old))
-  | .quant q vi vs b => .quant q vi vs (b.subst new old)
-  | .op1 o a => .op1 o (a.subst new old)
-  | .op2 o a b => .op2 o (a.subst new old) (b.subst new old)
+  | .pred p ps => .pred p (ps.map (Param.psubst new old))
+  | .quant q vi vs b => .quant q vi vs (b.psubst new old)
+  | .op1 o a => .op1 o (a.psubst new old)
+  | .op2 o a b => .op2 o (a.psubst new old) (b.psubst new old)
 
 /-- `c >> Qx.φ` : instantiate the body with a constant (Quantified.unquantify) -/
-def Sent.unquantify (ci cs : Nat) : Sent → Sent
-  | .quant _ vi vs b => b.subst (.const ci cs) (.var vi vs)
+def Sent.instC (ci cs : Nat) : Sent → Sent
+  | .quant _ vi vs b => b.psubst (.const ci cs) (.var vi vs)
   | s => s
 
 structure Struct where
